@@ -84,6 +84,10 @@ pub struct FWorld<M: Machine> {
     /// the run belongs to the C09 check: a rejected delivery that changes the state is reported
     /// as what it is for C09 - a history whose result differs from the batch over the accepted records
     pub c09_keyed: bool,
+    /// C08 run: what a refused call may do to the state is left open (keep the accepted prefix,
+    /// keep nothing, roll back), the model follows the count, and the sums are judged by the C08
+    /// bound at every query
+    pub c08_keyed: bool,
 }
 
 fn is_ops<M: Machine>() -> bool {
@@ -114,7 +118,7 @@ pub fn exec_probe<M: Machine>(tr: &Trace, stats: &mut Stats, known: &BTreeSet<St
     let tapes = [tr.tapes[0].materialize(), tr.tapes[1].materialize()];
     let has_twin = matches!(M::TRANSFORM, Transform::Ln | Transform::Recip);
     let ttapes = if has_twin { [tapes[0].iter().map(|&b| M::twin_record(b)).collect(), Vec::new()] } else { [Vec::new(), Vec::new()] };
-    let mut fw = FWorld::<M> { w: World::new(tapes), tw: World::new(ttapes), has_twin, c09_keyed: tr.property == "C09" };
+    let mut fw = FWorld::<M> { w: World::new(tapes), tw: World::new(ttapes), has_twin, c09_keyed: tr.property == "C09", c08_keyed: tr.property == "C08" };
     let mut reach = Reach::default();
     let mut dg = Digest::new();
     let mut fired: Vec<(String, u64)> = Vec::new();
@@ -220,6 +224,9 @@ pub fn exec_probe<M: Machine>(tr: &Trace, stats: &mut Stats, known: &BTreeSet<St
                 for v in query_checked::<M>(&fw, *a, confs, stats) {
                     record!(v);
                 }
+                if let Some(v) = c08_slot_check::<M>(&fw, *a, stats) {
+                    record!(v);
+                }
                 // two tenants taking turns: the partner's answers are judged like any other
                 // query (documented outcome, twin refinement), then both are asked in alternation
                 if let (Some(b), Some(&c)) = (crate::oracle::alternation_partner::<M>(&fw.w, *a), confs.first()) {
@@ -253,6 +260,9 @@ pub fn exec_probe<M: Machine>(tr: &Trace, stats: &mut Stats, known: &BTreeSet<St
         for v in query_checked::<M>(&fw, i, &final_confs, stats) {
             record!(v);
         }
+        if let Some(v) = c08_slot_check::<M>(&fw, i, stats) {
+            record!(v);
+        }
     }
     // conf-major sweep: every live slot is asked the same question in turn (the slot-major loop
     // above never puts two states' identical questions next to each other)
@@ -268,6 +278,19 @@ pub fn exec_probe<M: Machine>(tr: &Trace, stats: &mut Stats, known: &BTreeSet<St
     }
     reach.shape = dg.0;
     (out, reach, fired)
+}
+
+/// C08 run, lock-step machines: the state's sum against the exact sum of the pairs it holds
+fn c08_slot_check<M: Machine>(fw: &FWorld<M>, slot: u16, stats: &mut Stats) -> Option<Violation> {
+    if !fw.c08_keyed || !M::LOCKSTEP {
+        return None;
+    }
+    let s = fw.w.get(slot)?;
+    if s.model.poisoned || s.model.soft_poisoned {
+        return None;
+    }
+    let ts: Vec<(f64, f64)> = s.model.items[0].iter().zip(s.model.pair_b.iter()).map(|(&ia, &ib)| M::tspace(fw.w.tapes[0][ia as usize], fw.w.tapes[1][ib as usize])).collect();
+    crate::oracle::c08_after_refusal::<M>(&s.st, &ts, slot, stats)
 }
 
 /// takes the next `len` records' indices from the tape(s), advancing the cursors (same rule as
@@ -488,6 +511,21 @@ fn deliver_checked<M: Machine>(fw: &mut FWorld<M>, dst: u16, stream: usize, styl
             // as predicted
         } else if alt_nothing && got_fp == pre_fp {
             actual_accepted = [Vec::new(), Vec::new()];
+        } else if fw.c08_keyed && {
+            // not bit-identical to either prediction: the count says which observations the state
+            // claims to hold; the C08 bound judges its sums at the next query
+            let o = M::observe(&fw.w.get(dst).unwrap().st, ObsPlan { confs: &[], unguarded: false });
+            let pre_n = fw.w.get(dst).unwrap().model.count(0);
+            match obs_get(&o, What::Count(0)) {
+                Some(Val::U(g)) if *g == pre_n + arecs[0].len() as u64 => true,
+                Some(Val::U(g)) if *g == pre_n => {
+                    actual_accepted = [Vec::new(), Vec::new()];
+                    true
+                }
+                _ => false,
+            }
+        } {
+            stats.inc("c08_post_refusal_state_differs_bitwise");
         } else {
             viol.push(Violation::new(
                 if fw.c09_keyed { "C09" } else { pid_reject },
